@@ -149,6 +149,14 @@ pub fn record_compile(opts: &Opts) -> i32 {
     let mut rng = Rng(seed ^ 0x5eed_0002);
     let out = std::io::stdout();
     let mut out = out.lock();
+    if opts.get("profile") == Some("affix") {
+        for t in affix_programs() {
+            let o = lipe_find_parser::RunOptions::default();
+            let c = run_compile(&t, &o, &paths);
+            emit(&mut out, &json!({"t": expr_to_json(&t), "o": opts_to_json(&o), "c": c}));
+        }
+        return 0;
+    }
     for _ in 0..count {
         let sz = 1 + rng.below(size);
         let t = if opts.get("profile") == Some("chain") { let n = if size >= 200 { size - rng.below(20) } else { 1 + size / 2 + rng.below(size / 2 + 1) }; rand_chain(&mut rng, n) } else { rand_tree(&mut rng, sz, &p) };
@@ -204,7 +212,13 @@ pub fn record_api(opts: &Opts) -> i32 {
     for k in 0..count {
         let d = 2 + rng.below(4);
         // biased to many matchers / printers so that hash-table iteration order would show
-        if k % 11 == 5 {
+        if k % 5 == 2 {
+            // two destinations / patterns that are different strings but "the same" under some normalisation
+            const PAIRS: &[(&str, &str)] = &[("out", "./out"), ("list", "list/"), ("d/x", "d//x"), ("d/x", "d/./x"), ("../o", ".o"), ("Out", "out"), ("a b", "a  b")];
+            let (a, b) = PAIRS[(k as usize / 5) % PAIRS.len()];
+            let kind = ["-fprint", "-fprint0"][(k as usize / 35) % 2];
+            exprs.push(format!("-name a {} '{}' -o -name b {} '{}' -o -iname '{}' -o -name '{}/i'", kind, a, kind, b, a, a));
+        } else if k % 11 == 5 {
             // a time test in front of a construct the target refuses, then (next visit) time tests alone
             exprs.push(["-mmin -5 -user root", "-atime +3 -nouser", "-ctime 2 -o -regex x"][rng.below(3)].to_string());
             exprs.push("-mmin -5 -o -amin +2".to_string());
